@@ -124,12 +124,17 @@ class Budget(BaseException):
 class _Steps:
     n = 0
     limit = 1 << 62
+    tripped = 0
     installed = False
 
 
 def _on_event(*_a):
     _Steps.n += 1
     if _Steps.n > _Steps.limit:
+        # raise once, then leave room for the handlers (ours included) to run; should the code under test swallow
+        # the exception and carry on, it is interrupted again 100000 steps later
+        _Steps.tripped += 1
+        _Steps.limit = _Steps.n + 100_000
         raise Budget()
 
 
@@ -380,8 +385,8 @@ def seam1(S: Session, mtype: int, body: bytes, measure: bool = False):
             out = ('ok', force(S, mtype, m, header, body))
     except Notify as e:
         out = ('notify', stage, e.code, e.subcode, where_of(e))
-    except Budget:
-        out = ('budget', stage)
+    except Budget as e:
+        out = ('budget', stage, where_of(e))
     except RecursionError as e:
         out = ('exc', stage, 'RecursionError', where_of(e), '')
     except Exception as e:  # noqa: BLE001
@@ -436,8 +441,8 @@ class Seam2:
             task = lw.loop.create_task(self.proto.read_message())
             try:
                 lw.run_until_blocked(task)
-            except Budget:
-                return ('budget',)
+            except Budget as e:
+                return ('budget', where_of(e))
         finally:
             _Steps.limit = 1 << 62
         S.written()
@@ -451,7 +456,7 @@ class Seam2:
         if e is None:
             return ('ok', type(task.result()).__name__)
         if isinstance(e, Budget):
-            return ('budget',)
+            return ('budget', where_of(e))
         if isinstance(e, Notify):
             return ('notify', e.code, e.subcode, where_of(e))
         if isinstance(e, Notification):
@@ -490,7 +495,7 @@ def judge(S: Session, mtype: int, body: bytes, valid: bool, do_seam2=True):
             _, stage, et, where, text = o1
             viols.append((f'{stage}:{T}:{et}:{where}', f'{et}({text}) raised in {where} while {"decoding" if stage == "unpack" else "rendering/negotiating"}'))
         elif o1[0] == 'budget':
-            viols.append((f'unbounded:{o1[1]}:{T}', f'more than {budget_for(len(body))} steps for a {len(body)}-byte body'))
+            viols.append((f'unbounded:{o1[1]}:{T}:{o1[2]}', f'more than {budget_for(len(body))} steps (function entries + jumps) for a {len(body)}-byte body, interrupted in {o1[2]}'))
         elif o1[0] == 'notify':
             _, stage, code, sub, where = o1
             if not known_type:
@@ -518,7 +523,7 @@ def judge(S: Session, mtype: int, body: bytes, valid: bool, do_seam2=True):
             _, et, where, text = o2
             viols.append((f'escaped:{et}:{T}:{where}', f'{et}({text}) from {where} escaped Protocol.read_message'))
         elif o2[0] == 'budget':
-            viols.append((f'unbounded:read_message:{T}', f'more than {budget_for(len(body))} steps for a {len(body)}-byte body'))
+            viols.append((f'unbounded:read_message:{T}:{o2[1]}', f'more than {budget_for(len(body))} steps (function entries + jumps) for a {len(body)}-byte body, interrupted in {o2[1]}'))
         elif o2[0] == 'stuck':
             viols.append((f'stuck:read_message:{T}', 'read_message did not complete on a complete message'))
         elif o2[0] == 'notify':
@@ -1237,6 +1242,8 @@ def run(ctx: core.Ctx) -> None:
     pool = mp.Pool(min(16, os.cpu_count() or 1))
     try:
         for i, res in pool.imap_unordered(_indexed_worker, list(enumerate(jobs)), chunksize=1):
+            if 'harness_error' in res:
+                raise core.HarnessError(res['harness_error'])
             results[i] = res
     finally:
         pool.close()
@@ -1285,15 +1292,20 @@ def run(ctx: core.Ctx) -> None:
 
 
 def _indexed_worker(arg):
+    """Never let anything but a result leave a pool worker: an escaping BaseException would kill it and hang the pool."""
     i, job = arg
-    if os.environ.get('C03_TIMING') == '1':
-        import time
+    try:
+        if os.environ.get('C03_TIMING') == '1':
+            import time
 
-        t0 = time.process_time()
-        res = worker(job)
-        print(f'C03_TIMING cpu={time.process_time() - t0:7.2f}s job={str(job)[:110]}', file=sys.stderr)
-        return i, res
-    return i, worker(job)
+            t0 = time.process_time()
+            res = worker(job)
+            print(f'C03_TIMING cpu={time.process_time() - t0:7.2f}s job={str(job)[:110]}', file=sys.stderr)
+            return i, res
+        return i, worker(job)
+    except BaseException as e:  # noqa: BLE001
+        _Steps.limit = 1 << 62
+        return i, {'harness_error': f'{type(e).__name__}: {e} in job {str(job)[:200]}\n{traceback.format_exc()[-1500:]}'}
 
 
 def witness_text(case) -> str:
